@@ -1,0 +1,117 @@
+//! Verification hooks: drive the crate-private `AsyncRichIndexer` in-process.
+//!
+//! Nothing here changes behaviour; the module only forwards to the existing code
+//! (`SQLXPool::connect`, `AsyncRichIndexer::{new, append, rollback}` — the bodies of
+//! `IndexerSync::{append, rollback}` of `RichIndexer` — and `AsyncRichIndexerHandle::new`)
+//! and offers a read-only dump of the tables.
+
+use crate::AsyncRichIndexerHandle;
+use crate::indexer::AsyncRichIndexer;
+use crate::store::SQLXPool;
+use ckb_app_config::RichIndexerConfig;
+use ckb_indexer_sync::{CustomFilters, Error};
+use ckb_types::core::BlockView;
+use sqlx::{Row, any::AnyRow};
+
+/// The store path `SQLXPool::connect` treats as an in-memory SQLite database.
+pub const MEMORY_DB: &str = "sqlite://?mode=memory";
+
+const TABLES: [&str; 9] = [
+    "block",
+    "block_association_proposal",
+    "block_association_uncle",
+    "ckb_transaction",
+    "tx_association_header_dep",
+    "tx_association_cell_dep",
+    "output",
+    "input",
+    "script",
+];
+
+/// The rich-indexer over a SQLite store, without tx-pool overlay and without custom filters.
+pub struct VerifRichIndexer {
+    store: SQLXPool,
+    indexer: AsyncRichIndexer,
+}
+
+impl VerifRichIndexer {
+    /// `SQLXPool::connect` with the default (SQLite) configuration; `store` is [`MEMORY_DB`]
+    /// or the path of the database file (created if missing).
+    pub async fn connect_sqlite(store: &str) -> Result<Self, String> {
+        let mut pool = SQLXPool::default();
+        let config = RichIndexerConfig {
+            store: store.into(),
+            ..Default::default()
+        };
+        pool.connect(&config).await.map_err(|e| e.to_string())?;
+        let indexer = AsyncRichIndexer::new(pool.clone(), None, CustomFilters::new(None, None));
+        Ok(VerifRichIndexer {
+            store: pool,
+            indexer,
+        })
+    }
+
+    /// What `IndexerSync::append` of the rich-indexer runs to completion.
+    pub async fn append(&self, block: &BlockView) -> Result<(), Error> {
+        self.indexer.append(block).await
+    }
+
+    /// What `IndexerSync::rollback` of the rich-indexer runs to completion.
+    pub async fn rollback(&self) -> Result<(), Error> {
+        self.indexer.rollback().await
+    }
+
+    /// A query handle over the same store, as `RichIndexerService::async_handle` builds it.
+    pub fn handle(&self, request_limit: usize) -> AsyncRichIndexerHandle {
+        AsyncRichIndexerHandle::new(self.store.clone(), None, request_limit)
+    }
+
+    /// Every row of every table in primary-key order, each value rendered as text (read-only).
+    pub async fn dump(&self) -> Result<Vec<(&'static str, Vec<Vec<String>>)>, String> {
+        let mut out = Vec::new();
+        for table in TABLES {
+            let sql = format!("SELECT * FROM {} ORDER BY 1", table);
+            let rows = self
+                .store
+                .fetch_all(SQLXPool::new_query(&sql))
+                .await
+                .map_err(|e| e.to_string())?;
+            out.push((table, rows.iter().map(render_row).collect()));
+        }
+        Ok(out)
+    }
+
+    /// Close the connection pool.
+    pub async fn close(&self) {
+        if let Ok(pool) = self.store.get_pool() {
+            pool.close().await;
+        }
+    }
+}
+
+fn render_row(row: &AnyRow) -> Vec<String> {
+    (0..row.len())
+        .map(|i| {
+            if let Ok(v) = row.try_get::<Option<i64>, _>(i) {
+                v.map_or_else(|| "null".to_string(), |v| v.to_string())
+            } else if let Ok(v) = row.try_get::<Option<Vec<u8>>, _>(i) {
+                v.map_or_else(
+                    || "null".to_string(),
+                    |v| {
+                        let mut s = String::with_capacity(2 + v.len() * 2);
+                        s.push_str("x'");
+                        for b in v {
+                            s.push_str(&format!("{b:02x}"));
+                        }
+                        s.push('\'');
+                        s
+                    },
+                )
+            } else if let Ok(v) = row.try_get::<Option<String>, _>(i) {
+                v.map_or_else(|| "null".to_string(), |v| format!("{v:?}"))
+            } else {
+                "?".to_string()
+            }
+        })
+        .collect()
+}
